@@ -307,30 +307,35 @@ impl MultiState {
                 .as_ref()
                 .map(|d| d.visual_line_count(.., width))
                 .unwrap_or_default();
-            // Track the total number of zombie lines on the screen.
-            self.zombie_lines_count += line_count;
-
             // Track the number of zombie lines that will be drawn by this call to draw.
             adjust += line_count;
 
             reap_indices.push(index);
         }
 
-        // If this draw is due to a `println`, then we need to erase all the zombie lines.
-        // This is because `println` is supposed to appear above all other elements in the
-        // `MultiProgress`.
-        if extra_lines.is_some() {
-            self.draw_target
-                .adjust_last_line_count(LineAdjust::Clear(self.zombie_lines_count));
-            self.zombie_lines_count = VisualLines::default();
-        }
-
         let orphan_visual_line_count = visual_line_count(&self.orphan_lines, width);
         force_draw |= orphan_visual_line_count > VisualLines::default();
+
+        // Whether this draw prints text (from either kind of `println`) above the bars. Text
+        // is supposed to appear above all other elements in the `MultiProgress`, so such a
+        // draw erases the zombie lines that are still on screen; zombies are only reaped by
+        // draws that leave their lines on screen.
+        let has_text = extra_lines.is_some() || orphan_visual_line_count > VisualLines::default();
+        if has_text {
+            reap_indices.clear();
+            adjust = VisualLines::default();
+        }
+
+        // Nothing below may change the zombie accounting if this draw is rate limited.
         let mut drawable = match self.draw_target.drawable(force_draw, now) {
             Some(drawable) => drawable,
             None => return Ok(()),
         };
+
+        if has_text {
+            drawable.adjust_last_line_count(LineAdjust::Clear(self.zombie_lines_count));
+            self.zombie_lines_count = VisualLines::default();
+        }
 
         let mut draw_state = drawable.state();
         draw_state.alignment = self.alignment;
@@ -357,8 +362,9 @@ impl MultiState {
         }
 
         // The zombie lines were drawn for the last time, so make `DrawTarget` forget about them
-        // so they aren't cleared on next draw.
-        if extra_lines.is_none() {
+        // so they aren't cleared on next draw, and track them as zombie lines on the screen.
+        if !has_text {
+            self.zombie_lines_count = self.zombie_lines_count.saturating_add(adjust);
             self.draw_target
                 .adjust_last_line_count(LineAdjust::Keep(adjust));
         }
